@@ -363,6 +363,11 @@ def different_value(rng, kind, old):
     return copy.deepcopy(rng.choice(cands)) if cands else None
 
 
+# int64 values each exactly representable as float64 whose sum is not (2**53 + 1), or overflows int64 (>= 2**63)
+BIG_EXACT = [[2 ** 53, 1, 0], [2 ** 62, 2 ** 62, 1], [2 ** 62, 2 ** 62, 2 ** 62, 2 ** 62], [-2 ** 62, -2 ** 62, -2],
+             [2 ** 53, 2 ** 53, 1, 1], [2 ** 60, 1, 2 ** 60, 3], [2 ** 53, -1, 2, 0], [2 ** 62, 2 ** 62]]
+
+
 MUTATIONS = ["identical", "name", "dests", "dests_reorder", "unit", "colname", "colorder", "cell", "dtype",
              "add_row", "del_row", "add_col", "del_col", "missing_flavour", "missing_dtype", "transposed", "origin",
              "rowswap", "number_type_cell", "subclass", "index", "non_table", "unit_swap"]
@@ -710,6 +715,23 @@ def cases(rng, tier, seed):
                     yield {"seed": seed, "index": idx, "mutation": "reorder_stale_units:" + how, "expected": False,
                            "a": copy.deepcopy(derived), "b": copy.deepcopy(stale)}
                     idx += 1
+        # the same numbers as int64 and as float64 where every cell is exact in both types but the column total is
+        # not (or overflows int64): numbers compare by value cell by cell, whatever happens to sums
+        vals = rng.choice(BIG_EXACT)
+        vals = rng.sample(vals, len(vals))
+        big = {"cls": "Table", "name": base["name"], "dests": list(base["dests"]), "nrows": len(vals), "index": None,
+               "transposed": False, "origin": "",
+               "cols": [{"name": "big", "unit": "m", "kind": "int", "values": list(vals)},
+                        {"name": "s", "unit": "text", "kind": "text", "values": ["x"] * len(vals)}]}
+        asfloat = copy.deepcopy(big)
+        asfloat["cols"][0].update(kind="float", values=[float(v) for v in vals])
+        yield {"seed": seed, "index": idx, "mutation": "numeric_type_big_exact", "expected": True, "a": big, "b": asfloat}
+        idx += 1
+        asobj = copy.deepcopy(big)
+        asobj["cols"][0].update(kind="Int64")
+        yield {"seed": seed, "index": idx, "mutation": "numeric_type_big_exact", "expected": True,
+               "a": copy.deepcopy(asfloat), "b": asobj}
+        idx += 1
         # column names that collide or are illegal as Python identifiers: reflexivity / iff must not depend on them
         if len(base["cols"]) >= 2:
             pa, pb = rng.choice(CONFUSABLE_PAIRS)
